@@ -335,6 +335,30 @@ type kase struct {
 	AY    axisG
 	Recs  []rec
 	Parts [][]int // law cases: indices into Recs, one slice per part
+	// Prior: before the case is evaluated, the same program runs on the same records with one record whose
+	// field Field is a string inserted at position At; that evaluation fails, the case itself must not notice
+	Prior *prior
+}
+
+type prior struct {
+	At    int
+	Field string
+}
+
+// failingList is the list of the prior evaluation.
+func (k *kase) failingList() value.Value {
+	items := make([]value.Value, 0, len(k.Recs)+1)
+	for i := 0; i <= len(k.Recs); i++ {
+		if i == k.Prior.At {
+			m := value.RealMap{"x": value.Int(0), "y": value.Int(0), "w": value.Int(1)}
+			m[k.Prior.Field] = value.String("a")
+			items = append(items, value.NewMap(m))
+		}
+		if i < len(k.Recs) {
+			items = append(items, recVal(k.Dim, k.Recs[i]))
+		}
+	}
+	return value.NewList(items...)
 }
 
 func (k *kase) law() bool { return k.Parts != nil }
@@ -365,6 +389,9 @@ func (k *kase) repro() map[string]any {
 		}
 		m["parts"] = ps
 	}
+	if k.Prior != nil {
+		m["prior_failing_evaluation"] = map[string]any{"at": k.Prior.At, "field": k.Prior.Field}
+	}
 	return m
 }
 
@@ -374,6 +401,8 @@ type verdict struct {
 	errObs   string  // set if there is no well-formed result
 	res      *result // the well-formed result of this evaluation
 	whole    *result // the library's binning of the whole list (nil if it failed)
+	// priorAccepted: the prior evaluation with a string in a numeric field did not fail
+	priorAccepted bool
 }
 
 // obs renders the observation (only needed for failing cases and samples).
@@ -388,6 +417,11 @@ func (v *verdict) obs() string {
 func (h *harness) evalWhole(k *kase, ax, ay *axisRef) verdict {
 	var v verdict
 	src := h.program(k.Dim, k.AX, k.AY, false)
+	if k.Prior != nil {
+		if _, err := h.run(src, k.failingList()); err == nil {
+			v.priorAccepted = true
+		}
+	}
 	got, err := h.run(src, listVal(k.Dim, k.Recs))
 	if err != nil {
 		v.errObs = "error: " + err.Error()
@@ -608,6 +642,13 @@ func (c *checker) doWhole(k *kase, spaceNo, gi int, recIdx []int) *result {
 	c.ctx.Eval()
 	v := c.h.evalWhole(k, ax, ay)
 	c.report(k, v)
+	if k.Prior != nil {
+		if v.priorAccepted {
+			c.ctx.Add("prior_evaluations_that_did_not_fail", 1)
+		} else {
+			c.ctx.Add("prior_evaluations_failed", 1)
+		}
+	}
 	cl := classes(k.Dim, ax, ay, k.Recs)
 	if len(v.problems) > 0 {
 		c.ctx.Outcome(fmt.Sprintf("%dd:%s:violated", k.Dim, cl))
@@ -881,6 +922,25 @@ func run(ctx *bex.Ctx) {
 	}
 	ctx.SpaceDone(fmt.Sprintf("45 grids x all lists of <= %d records, x in {start-size, start, end-size/2, end, 2^70} x weight %v x {1 part, every subset/complement (2 parts), every cut into 3 contiguous parts, empty parts included}", b.lawLen, b.lawWeights))
 
+	// (4b) 1-d binning after a binning that failed half way
+	ctx.Space("1d-after-failed-binning")
+	c.idx = 0
+	for gi, g := range all {
+		a := c.ref(g)
+		pool := records1(corePool(a), weights)
+		eachList(len(pool), 0, 2, func(ix []int) bool {
+			for at := 0; at <= len(ix); at++ {
+				for _, f := range []string{"x", "w"} {
+					if c.next() {
+						c.doWhole(&kase{Space: "1d-after-failed-binning", Dim: 1, AX: g, Recs: pick(pool, ix), Prior: &prior{at, f}}, 8, gi, append(append([]int{}, ix...), at, int(f[0])))
+					}
+				}
+			}
+			return !c.stop
+		})
+	}
+	ctx.SpaceDone("45 grids x all lists of <= 2 records over the core pool x weight {1,0.5,-2}: first the same binning of the same records with a record whose x (or w) is a string inserted at every position (it fails after the records in front have been counted), then the binning of the records themselves, judged like every whole-list case")
+
 	// (5) 2-d, one record, every pair of axis grids
 	ctx.Space("2d-single")
 	c.idx = 0
@@ -932,6 +992,30 @@ func run(ctx *bex.Ctx) {
 		}
 	}
 	ctx.SpaceDone(fmt.Sprintf("12 x 12 pairs of axis grids (start 0,-1.5 x size 0.5,2 x count 0,1,3) x all lists of <= %d records, x,y in {start-size/2, start, 2^70} x weight {1,-2}", b.listLen2))
+
+	// (6b) 2-d binning after a binning that failed half way
+	ctx.Space("2d-after-failed-binning")
+	c.idx = 0
+	for gi, gx := range few {
+		for gj, gy := range few {
+			ax, ay := c.ref(gx), c.ref(gy)
+			pool := records2(litePool(ax), litePool(ay), []float64{1, -2})
+			eachList(len(pool), 0, 1, func(ix []int) bool {
+				for at := 0; at <= len(ix); at++ {
+					for _, f := range []string{"x", "y", "w"} {
+						if c.next() {
+							c.doWhole(&kase{Space: "2d-after-failed-binning", Dim: 2, AX: gx, AY: gy, Recs: pick(pool, ix), Prior: &prior{at, f}}, 9, gi*len(few)+gj, append(append([]int{}, ix...), at, int(f[0])))
+						}
+					}
+				}
+				return !c.stop
+			})
+			if c.stop {
+				break
+			}
+		}
+	}
+	ctx.SpaceDone("12 x 12 pairs of axis grids x all lists of <= 1 record: first the same binning2d with a record whose x, y or w is a string inserted in front or behind, then the binning of the records themselves")
 
 	// (7) 2-d additivity
 	ctx.Space("2d-additivity")
@@ -1002,6 +1086,10 @@ func replay(repro map[string]any) (string, bool) {
 	if k.Dim == 2 {
 		k.AY = toAxis(repro["y_axis"])
 	}
+	if pm, ok := repro["prior_failing_evaluation"].(map[string]any); ok {
+		f, _ := pm["field"].(string)
+		k.Prior = &prior{int(toF(pm["at"])), f}
+	}
 	rs, _ := repro["records"].([]any)
 	for _, r := range rs {
 		l, _ := r.([]any)
@@ -1054,7 +1142,7 @@ func main() {
 	bex.Main(&bex.Check{
 		ID:    "C20",
 		Level: "exploration",
-		Rule:  "every case = one program text (l.binning(start,size,count,r->r.x,r->r.w), l.binning2d(…), or let b=l.map(p->p.binning…(…)).eval(); [b.collectBinning(), b.collectBinning()]) generated by value.New() and evaluated on one argument list. Whole-list cases are compared with a reference histogram (bin of a record = the interval of the property's definition that contains x, decided by comparisons on exactly representable edges), with the exact sum of the weights, and bin by bin with the interval description (presence and exact value of min/max, shape and numbers of str); additivity cases compare collectBinning over the binnings of the parts — collected twice from the same part binnings — with the library's binning of the whole list (values and descriptions). distinct_nontrivial = distinct (space, grid, record list) whose reference histogram has a non-zero bin (whole-list cases) resp. that were split into at least two non-empty parts (additivity cases; the splittings of one list are not counted separately)",
+		Rule:  "every case = one program text (l.binning(start,size,count,r->r.x,r->r.w), l.binning2d(…), or let b=l.map(p->p.binning…(…)).eval(); [b.collectBinning(), b.collectBinning()]) generated by value.New() and evaluated on one argument list (in the after-failed-binning spaces: after the same program has failed on a list with a string in a numeric field). Whole-list cases are compared with a reference histogram (bin of a record = the interval of the property's definition that contains x, decided by comparisons on exactly representable edges), with the exact sum of the weights, and bin by bin with the interval description (presence and exact value of min/max, shape and numbers of str); additivity cases compare collectBinning over the binnings of the parts — collected twice from the same part binnings — with the library's binning of the whole list (values and descriptions). distinct_nontrivial = distinct (space, grid, record list) whose reference histogram has a non-zero bin (whole-list cases) resp. that were split into at least two non-empty parts (additivity cases; the splittings of one list are not counted separately)",
 		Assumptions: []string{
 			"grid values (start, size) are dyadic with size a power of two, so every bin edge, x-start and the quotient are exact in float64 (checked with big.Rat when the reference axis is built); weights 1, 0.5, -2 make every sum exact",
 			"records whose x is one ulp from an edge are only judged when the library's float computation of (x-start)/size is exact (else counted in unspecified_excluded); NaN/Inf coordinates, size <= 0, negative or fractional count are outside the property",
